@@ -47,6 +47,20 @@ CInit ==
   /\ by' = IF Ev.created THEN Ev.pkg ELSE by
   /\ UNCHANGED <<parentOK, gop, ran>>
 
+\* a'. n concurrent inits on the target path (one event: their exit statuses counted, the package string of
+\* the one that reported success, the snapshot after all have ended)
+RaceOK ==
+  /\ Ev.before = cur
+  /\ (Ev.presence = "no") <=> (cur = "absent")
+  /\ parentOK
+  /\ RaceAllowed(Ev.presence, Ev.oks)
+  /\ Ev.oks = 1 => Ev.created /\ Ev.after # Ev.before /\ Ev.after # "absent"
+  /\ Ev.oks = 0 => Ev.after = Ev.before
+CRace ==
+  /\ cur' = Ev.after
+  /\ by' = IF Ev.oks = 1 THEN Ev.winner ELSE by
+  /\ UNCHANGED <<parentOK, gop, ran>>
+
 \* b, c, d. load (showconfig + independent YAML read of the file)
 LoadOK ==
   /\ Ev.before = cur
@@ -89,6 +103,7 @@ Step(e, ok, act) ==
 TraceNext ==
   \/ IsEvent("reset") /\ CReset
   \/ Step("init", InitOK, CInit)
+  \/ Step("race", RaceOK, CRace)
   \/ Step("load", LoadOK, CLoad)
   \/ Step("run", RunOK, CRun)
 
